@@ -36,9 +36,17 @@ fn main() {
     let (prop, level, run, rep): (&'static str, &'static str, fn(&Ctx), fn(&Ctx, &serde_json::Value)) = match id.as_str() {
         "C01" => ("C01", "exploration", props::c01::run, props::c01::replay),
         "C12" => ("C12", "exploration", props::c12::run_check, props::c12::replay),
+        "C02" => ("C02", "exploration", props::c02::run_check, props::c02::replay),
+        "C03" => ("C03", "exploration", props::c03::run_check, props::c03::replay),
+        "C04" => ("C04", "exploration", props::c04::run_check, props::c04::replay),
         "C05" => ("C05", "exploration", props::c05::run_check, props::c05::replay),
         "C06" => ("C06", "exploration", props::c06::run_check, props::c06::replay),
         "C08" => ("C08", "exploration", props::c08::run_check, props::c08::replay),
+        "C09" => ("C09", "exploration", props::c09::run_check, props::c09::replay),
+        "C13" => ("C13", "exploration", props::c13::run_check, props::c13::replay),
+        "C16" => ("C16", "exploration", props::c16::run_check, props::c16::replay),
+        "C17" => ("C17", "exploration", props::c17::run_check, props::c17::replay),
+        "C18" => ("C18", "exploration", props::c18::run_check, props::c18::replay),
         "C10" => ("C10", "exploration", props::c10::run_check, props::c10::replay),
         "C07" => ("C07", "exploration", props::c07::run_check, props::c07::replay),
         _ => {
